@@ -12,7 +12,7 @@ from genlib import hx, vec, sbytes, limbs_of, B
 
 LEAN_MODULES = ["MpirProofs.Props.C20_io"]
 THEOREMS = ["Mpir.CxxIo.insertZ_layout", "Mpir.CxxIo.insertQ_layout", "Mpir.CxxIo.insert_width_reset",
-            "Mpir.CxxIo.extractZ_spec", "Mpir.CxxIo.extractZ_props", "Mpir.CxxIo.extractZ_not_good", "Mpir.CxxIo.extractQ_spec"]
+            "Mpir.CxxIo.extractZ_spec", "Mpir.CxxIo.extractZ_props", "Mpir.CxxIo.extractZ_not_good", "Mpir.CxxIo.extractQ_spec", "Mpir.CxxIo.roundtripZ_partial"]
 PINS = [("cxx/isfuns.cc", None), ("cxx/ismpz.cc", None), ("cxx/ismpznw.cc", None), ("cxx/ismpq.cc", None), ("cxx/ismpf.cc", None),
         ("cxx/osfuns.cc", None), ("cxx/osdoprnti.cc", None), ("cxx/osmpz.cc", None), ("cxx/osmpq.cc", None), ("cxx/osmpf.cc", None)]
 TRUSTED = ["lean/Mpir/Model/CxxIo.lean `IStream.get/putback/clear`, `OStream.write`: the meaning of std::istream::get(char&), putback, clear, setstate, operator!, good(), eof() and "
